@@ -184,6 +184,19 @@ func NewPipeFromBufferPool(pool *sync.Pool) *Pipe {
 	return p
 }
 
+// Discard drops all buffered data that has not been read yet and returns
+// the number of bytes dropped.
+func (p *Pipe) Discard() int {
+	p.mu.Lock()
+	defer p.mu.Unlock()
+	if p.b == nil {
+		return 0
+	}
+	n := p.b.Len()
+	p.b.Reset()
+	return n
+}
+
 // Release() releases underlying fixed buffer
 func (p *Pipe) Release(pool *sync.Pool) {
 	p.mu.Lock()
